@@ -363,3 +363,12 @@ def after_batch() -> None:
 def extra_coverage(stats) -> dict:
     return {"model_runs_by_framer": dict(sorted(sers.MODEL_RUNS.items()))}
 # ---- end raw JSON framer ----
+
+
+# ---- generic framers ----
+# file-based / compressor framers (Lean model GenericFr): adds the case kind "generic" and gives the existing cases whose
+# serializer is a file toy or a zlib/bz2 wrapper a model run (see vlib/genericfr.py, docs/GENERICFR.md)
+from vlib import genericfr as _genericfr  # noqa: E402
+
+_genericfr.install(globals(), "C07")
+# ---- end generic framers ----
